@@ -38,19 +38,19 @@ type sTrack struct {
 }
 
 type sSeg struct {
-	idx     int
-	first   []int // per track: index of first unit
-	count   []int
-	dur     time.Duration
-	pdt     *time.Time
-	body    []byte
-	uri     string // as written in the playlist
-	brLen   uint64
-	brStart uint64
-	hasBR   bool
+	idx             int
+	first           []int // per track: index of first unit
+	count           []int
+	dur             time.Duration
+	pdt             *time.Time
+	body            []byte
+	uri             string // as written in the playlist
+	brLen           uint64
+	brStart         uint64
+	hasBR           bool
 	brExplicitStart bool
-	availAt time.Duration // live: when the segment becomes available
-	frags   int
+	availAt         time.Duration // live: when the segment becomes available
+	frags           int
 }
 
 type sStream struct {
@@ -64,22 +64,22 @@ type sStream struct {
 	blobURI   string
 	plURL     *url.URL
 	// playlist evolution
-	mode       string // vod | event | live | scripted
-	window     int
-	baseMSN    int
-	cursor     int // scripted: index of the last listed segment
-	steps      []int
-	polls      int
-	endAfter   int // ENDLIST once this many segments are listed (-1: never)
-	plType     string
-	hasPDT     bool
-	served     []*servedPL // every playlist state served, in order
-	rendition  *mvRendition
-	llHints    bool
-	canSkip    bool
-	targetDur  int
-	version    int
-	indep      bool
+	mode      string // vod | event | live | scripted
+	window    int
+	baseMSN   int
+	cursor    int // scripted: index of the last listed segment
+	steps     []int
+	polls     int
+	endAfter  int // ENDLIST once this many segments are listed (-1: never)
+	plType    string
+	hasPDT    bool
+	served    []*servedPL // every playlist state served, in order
+	rendition *mvRendition
+	llHints   bool
+	canSkip   bool
+	targetDur int
+	version   int
+	indep     bool
 }
 
 type servedPL struct {
@@ -407,20 +407,20 @@ func (o *stubOrigin) serve(nr *netReq) *originResp {
 // generation
 
 type originGen struct {
-	containers   []string
-	modes        []string
-	maxSegs      int
-	minSegs      int
-	renditions   bool
-	byteRanges   bool
-	bframes      bool
-	multiFrag    bool
-	bigBases     bool
-	unsupported  bool // add tracks with codecs gohlslib has no decoder for (C13)
-	fastLive     bool
-	segDurMs     []int
-	forceMulti   bool
-	noPDTChance  int
+	containers  []string
+	modes       []string
+	maxSegs     int
+	minSegs     int
+	renditions  bool
+	byteRanges  bool
+	bframes     bool
+	multiFrag   bool
+	bigBases    bool
+	unsupported bool // add tracks with codecs gohlslib has no decoder for (C13)
+	fastLive    bool
+	segDurMs    []int
+	forceMulti  bool
+	noPDTChance int
 }
 
 func aacCodecTS(rate int) *mpegts.CodecMPEG4Audio {
